@@ -9,10 +9,15 @@ c. snapshots on an immutable working-copy commit create a new commit on top (sna
 d. the shared transaction tail rebases descendants with the immutable set taken from the base repo
 e. check_rewritable_expr returns Ok only when the intersection with the immutable set is empty; the override flag
    is read only in resolve_immutable_expression
+f. the shared location helper compute_commit_location (used by new/rebase/duplicate/revert/split/squash for -A/-B):
+   every Ok return passes a ?-checked check_rewritable of the child list, or the edge on which that list is empty --
+   for every combination of --destination / --insert-after / --insert-before
+g. leaving an empty working-copy commit (MutableRepo::edit -> maybe_abandon_wc_commit) abandons it only if no local
+   bookmark or tag refers to it, counting every side of a conflicted target (added_ids), and no other workspace
 """
 import re
 
-from jjv.lib import (bodies_with, bool_edges, find_ok_nodes, name_matches, ok_exit_nodes, show, strip, term_calls,
+from jjv.lib import (bodies_with, bool_edges, find_ok_nodes, name_matches, norm, ok_exit_nodes, show, strip, term_calls,
                      term_fields, walk)
 
 CU = "jj_cli::cli_util::"
@@ -65,6 +70,8 @@ def run(ctx):
     rule_c(ctx)
     rule_d(ctx)
     rule_e(ctx)
+    rule_f(ctx)
+    rule_g(ctx)
 
 
 def rule_a(ctx):
@@ -247,3 +254,113 @@ def rule_e(ctx):
     ok = all(r.endswith("resolve_immutable_expression") or "clap" in r or r.startswith("<jj_cli::cli_util::GlobalArgs")
              or "GlobalArgs" in r for r in readers) and any(r.endswith("resolve_immutable_expression") for r in readers)
     ctx.ob("C42.e/override-read-in-one-place", "GlobalArgs.ignore_immutable", ok, f"read in {readers}")
+
+
+def rule_f(ctx):
+    F = ctx.F
+    root = CU + "compute_commit_location"
+    CHK = WCH + "check_rewritable"
+    bs = bodies_with(F, root, CHK)
+    if not ctx.anchor("C42.f", root, bs, 1):
+        return
+    b = bs[0]
+    ctx.fn_seen(b.id)
+    sl = F.slicer(b.id)
+    checks = [c for c in b.calls_to(CHK) if c.decl != "futures::Future::poll"]
+    oks = set()
+    for c in checks:
+        oks |= find_ok_nodes(F, b, c)
+    # the value returned as children: component 1 of the Ok tuple
+    okn, _, _ = ok_exit_nodes(F, b)
+    empties = set()
+    for c in b.calls:
+        if c.cleanup or not name_matches(c.res or c.decl or "", "re:Vec::<.*>::is_empty$"):
+            continue
+        t = strip(sl.call_arg(c, 0))
+        if isinstance(t, tuple) and t[0] == "field" and t[2] == "(tuple)" and str(t[3]) == "1":
+            tr, fa = bool_edges(F, b, c)
+            empties |= set(tr)
+    bad = None
+    for x in okn:
+        p = b.path_avoiding([0], [x], oks | empties)
+        if p is not None:
+            bad = p
+    ctx.ob("C42.f/children-checked-on-every-path", root, bool(oks) and bool(okn) and bad is None,
+           "every Ok return passes check_rewritable(new_child_ids)? or the `no children` edge" if oks and okn and bad is None else
+           f"compute_commit_location can return children to be reparented without having checked that they are rewritable "
+           f"(some flag combination skips the check): {b.show_path(bad)[-5:] if bad else ''}",
+           where=checks[0].where() if checks else None)
+    # what is checked is a list that becomes the returned children
+    for c in checks:
+        t = sl.call_arg(c, 1)
+        flows = False
+        tt = t
+        for w in walk(t):
+            if w[0] == "field" and w[2] == "(tuple)" and str(w[3]) == "1":
+                flows = True
+        # or: an arm-local value that is stored as component 1 of the result
+        if not flows:
+            argn = repr(norm(strip(t, extra=("re:slice.*::iter$",))))
+            for x in okn:
+                pass
+            rt = None
+            for i, blk in enumerate(b.blocks):
+                if blk.get("c"):
+                    continue
+                for st in blk["s"]:
+                    rv = st["r"]
+                    if rv["k"] == "agg" and rv.get("ak") == "tuple" or (rv["k"] == "agg" and rv.get("adt") is None and len(rv.get("o", [])) == 2):
+                        o1 = repr(norm(sl.operand(rv["o"][1], at=i)))
+                        if argn and (argn in o1 or o1 in argn):
+                            flows = True
+        ctx.ob("C42.f/checked-list-is-the-children", f"{root}@{c.t.get('ln', 0) if hasattr(c, 't') else c.bb}", flows,
+               "the checked ids are the list returned as new children" if flows else
+               f"check_rewritable is applied to {show(t)[:80]}, which is not the list of children returned", where=c.where())
+
+
+def rule_g(ctx):
+    F = ctx.F
+    root = "jj_lib::repo::MutableRepo::maybe_abandon_wc_commit"
+    fam = F.family_bodies(root)
+    if not ctx.anchor("C42.g", root, fam, 2):
+        return
+    ab = [b for b in fam if b.calls_to("jj_lib::repo::MutableRepo::record_abandoned_commit")]
+    if not ctx.anchor("C42.g", "record_abandoned_commit in maybe_abandon_wc_commit", ab, 1):
+        return
+    ctx.fn_seen(*[b.id for b in fam])
+    # the `is_commit_referenced` closure family: which accessor is applied to bookmark and tag targets
+    per = {}
+    for b in fam:
+        for c in b.calls:
+            if c.cleanup:
+                continue
+            n = c.res or c.decl or ""
+            if n.startswith("jj_lib::op_store::RefTarget::"):
+                per.setdefault(n.split("::")[-1], set()).add(b.id)
+    names = {c.res or c.decl or "" for b in fam for c in b.calls if not c.cleanup}
+    has_b = "jj_lib::view::View::local_bookmarks" in names
+    has_t = "jj_lib::view::View::local_tags" in names
+    has_w = "jj_lib::view::View::wc_commit_ids" in names
+    narrowing = sorted(set(per) & {"as_normal", "as_resolved", "is_present", "is_absent", "removed_ids"})
+    n_added = len(per.get("added_ids", ()))
+    ok = has_b and has_t and has_w and n_added >= 2 and not narrowing
+    ctx.ob("C42.g/referenced-commit-not-auto-abandoned", root, ok,
+           "is_commit_referenced = other workspaces' @ ∪ added_ids of every local bookmark ∪ added_ids of every local tag" if ok else
+           f"the auto-abandon of an empty working-copy commit does not look at every id of bookmark/tag targets "
+           f"(bookmarks={has_b}, tags={has_t}, other workspaces={has_w}, added_ids sites={n_added}, narrowing accessors={narrowing}): "
+           f"a commit named by a conflicted tag/bookmark (immutable via tags()/bookmarks()) can be abandoned and hidden")
+    # the abandon is control-dependent on !is_commit_referenced
+    b = ab[0]
+    sl = F.slicer(b.id)
+    ra = b.calls_to("jj_lib::repo::MutableRepo::record_abandoned_commit")[0]
+    guard = set()
+    for c in b.calls:
+        if c.cleanup:
+            continue
+        n = c.res or c.decl or ""
+        if n.startswith("closure:") or "maybe_abandon_wc_commit::{closure" in n:
+            tr, fa = bool_edges(F, b, c)
+            guard |= set(fa)
+    okg = bool(guard) and b.set_dominated(ra.bb, guard)
+    ctx.ob("C42.g/abandon-only-when-unreferenced", root, okg, "record_abandoned_commit only on the !is_commit_referenced edge" if okg
+           else "record_abandoned_commit is reachable without the is_commit_referenced test being false", where=ra.where())
